@@ -104,7 +104,7 @@ CORRUPTIONS = ["qual_short", "qual_long", "no_plus", "plus_replaced", "no_at", "
 
 
 class Fault:
-    def __init__(self, label, files, paired_mode, malformed, wf_prefix, fmt="fastq", detail=""):
+    def __init__(self, label, files, paired_mode, malformed, wf_prefix, fmt="fastq", detail="", out_ext=""):
         self.label = label
         self.files = files            # {name: bytes}
         self.paired_mode = paired_mode  # None | 'two' | 'interleaved'
@@ -112,6 +112,7 @@ class Fault:
         self.wf_prefix = wf_prefix    # {name: text} longest well-formed prefix (record-wise) of each input
         self.fmt = fmt
         self.detail = detail
+        self.out_ext = out_ext        # compression suffix of the output files
 
 
 def wf_prefix_fastq(text):
@@ -230,6 +231,16 @@ def make_faults(ctx, rng, thorough):
         except Exception:
             pass
         yield Fault(f"bitflip-gzip@bit{bit}", {"in1.fq.gz": bytes(b)}, None, True, None, detail="gzip-bitflip")
+    # (c+) a corrupted record early in a multi-chunk file, with outputs that go through an external compressor
+    for idx in (5, len(big) // 2):
+        for kind in ("qual_short", "no_plus"):
+            text = corrupt_record(rng, big, idx, kind)
+            pref, wf = wf_prefix_fastq(text)
+            if wf:
+                continue
+            ext = rng.choice([".xz", ".zst", ".gz", ".bz2", ""])
+            yield Fault(f"corrupt-big-{kind}@rec{idx}", {"in1.fq": text.encode("latin-1")}, None, True, {"in1.fq": pref},
+                        detail=f"900+ records, output suffix {ext!r}", out_ext=ext)
     # (c'') paired input whose second file is a truncated compressed stream
     big2 = [(nm.replace(" c", " d"), G.rnd(rng, len(sq)), ql) for nm, sq, ql in big]
     tb2 = fastx.format_fastq(big2)
@@ -274,15 +285,15 @@ def expected_output(ctx, d, fault, cmd, cache):
     return cache[key]
 
 
-def out_names(mode, fmt):
-    ext = "fq" if fmt == "fastq" else "fa"
+def out_names(mode, fmt, out_ext=""):
+    ext = ("fq" if fmt == "fastq" else "fa") + out_ext
     if mode == "two":
         return [f"o1.{ext}", f"o2.{ext}"]
     return [f"o1.{ext}"]
 
 
-def io_args(mode, fmt):
-    ext = "fq" if fmt == "fastq" else "fa"
+def io_args(mode, fmt, out_ext=""):
+    ext = ("fq" if fmt == "fastq" else "fa") + out_ext
     if mode == "two":
         return ["-o", f"o1.{ext}", "-p", f"o2.{ext}"]
     if mode == "interleaved":
@@ -307,7 +318,7 @@ def run_fault(ctx, d, fault, cores, bufsize, perturb, cache, state):
     argv = list(cmd)
     if cores > 1:
         argv += ["-j", str(cores), "--buffer-size", str(bufsize)]
-    argv += io_args(fault.paired_mode, fault.fmt) + sorted(fault.files)
+    argv += io_args(fault.paired_mode, fault.fmt, fault.out_ext) + sorted(fault.files)
     run = climon.run(w, argv, tag="run", trace=cores > 1, perturb=perturb, trace_reads=False, timeout=45)
     case = dict(cli=True, argv=argv, files={k: v.decode("latin-1") for k, v in fault.files.items()}, fault=fault.label, cores=cores,
                 bufsize=bufsize, perturb=perturb)
@@ -343,9 +354,17 @@ def run_fault(ctx, d, fault, cores, bufsize, perturb, cache, state):
     # output content
     exp = expected_output(ctx, d, fault, cmd, cache)
     outs = []
-    for f in out_names(fault.paired_mode, fault.fmt):
+    for f in out_names(fault.paired_mode, fault.fmt, fault.out_ext):
         p = os.path.join(w, f)
-        outs.append(open(p, errors="replace").read() if os.path.exists(p) else None)
+        if not os.path.exists(p):
+            outs.append(None)
+        elif fault.out_ext:
+            try:
+                outs.append(fastx.decompress_file(p).decode("ascii", "replace"))
+            except Exception:
+                outs.append(None)   # an unfinished compressed stream after an error is not judged
+        else:
+            outs.append(open(p, errors="replace").read())
     parsed = []
     for text in outs:
         if text is None:
@@ -400,7 +419,7 @@ def run_shard(ctx):
             combos = [(1, 0, None)]
             # the (hidden) buffer size must hold at least one record (pair); 400 bytes is several times the largest record here
             bufs = [max(400, size // 4), max(400, size // 2), 100000]
-            if fault.label.startswith("truncate-big"):
+            if fault.label.startswith(("truncate-big", "corrupt-big")):
                 bufs = [20000, 8000, 60000]
             if thorough:
                 combos += [(2, bufs[0], 1), (3, bufs[1], 2), (2, bufs[2], None)]
